@@ -70,6 +70,10 @@ CHECKS = {
          "Exploration, exhaustive over the finite domain for the function/by_name paths and the category laws (exhaustive: true); the VM path is exhaustive in the thorough tier and covers all boundary scalars +-1 and every 61st scalar in the quick tier.",
          "Group membership table written from UAX #44 in the harness; says nothing about whether the tables match a particular Unicode version. The derive path is covered by C02.",
          "DESIGN.md section 4, C16"),
+ "C17": ("schedule exploration with shuttle (seeded random and PCT schedulers) over the real debugger source re-targeted onto a shim, driven by proptest-generated scenarios; oracle = breakpoint hits computed from a plain listener run",
+         "Exploration: ~4000 generated scenarios (quick) x 200 schedules each (~800k executions); event sequence, at-most-one-event-per-continue, silence while waiting, successful re-run and deadlock-freedom are asserted in every explored schedule.",
+         "The shim's park() has no spurious wake-ups; liveness only as deadlock-freedom / step bound (150k steps) of explored schedules; re-runs use channel capacity >= 1. The debugger source is taken from the working tree by build.rs (only its import block is rewritten).",
+         "DESIGN.md section 4, C17"),
  "C18": ("differential against a hand-written RFC 8259 recogniser over ABNF-generated documents, their one-edit neighbours, token soup and a near-miss catalogue",
          "Exploration: 150k generated valid documents + 450k one-edit neighbours + 75k token-soup strings (quick); accept/reject must agree and accepted token trees must mirror the recogniser's value tree with exact spans.",
          "Trusts the ~150-line recogniser in harness/pv/src/c18.rs as the reading of the RFC; invalid UTF-8 cannot be expressed as &str and is out of scope.",
@@ -96,7 +100,7 @@ for p in props:
         "thorough_cmd": f"./check {i} thorough",
         "evidence_file": f"/verif/evidence/{i}.json",
         "replay_cmd_template": "./check --replay {path}",
-        "engine": "pv",
+        "engine": "dbgsim" if i == "C17" else "pv",
         "level_claimed": {"category": "exploration", "text": text, "design_ref": ref},
         "level_note": note,
         "technique": tech,
@@ -112,7 +116,11 @@ m = {
    "add_only": True,
  },
  "engines": [
-   {"name": "pv", "path": "/verif/harness/pv", "serves_properties": sorted(CHECKS),
+   {"name": "dbgsim", "path": "/verif/harness/dbgsim", "serves_properties": ["C17"],
+    "kind_free_text": "Rust binary: /repo/debugger/src/lib.rs compiled against a shuttle-backed sync/thread shim (import block rewritten by build.rs), scenarios from proptest, schedules from shuttle's seeded schedulers"},
+   {"name": "pvnm", "path": "/verif/harness/pvnm", "serves_properties": ["C03"],
+    "kind_free_text": "the C03 check linked against pest without the memchr feature (separate package and target dir)"},
+   {"name": "pv", "path": "/verif/harness/pv", "serves_properties": sorted(c for c in CHECKS if c != "C17"),
     "kind_free_text": "Rust harness binary (proptest 1.11 runners with fixed seeds, exhaustive small-scope enumerators, reference models); path-depends on the /repo crates and is rebuilt by ./check on every invocation"},
  ],
  "checks": checks,
